@@ -15,6 +15,7 @@ ASSUMPTIONS = ['ribbon_width = max(0, min(width, round(frac * width))) as docume
                'groups whose flat reading reaches a hardline (known finding KF1) are not judged',
                'decisions that are not observable (group without its own line/softline) are not judged']
 BUDGET = {'quick': {'random': 8000, 'shards': 16}, 'thorough': {'random': 400000, 'shards': 16}}
+FUZZ = {'runs': 60000}   # thorough tier: 16 atheris campaigns of this many executions over the same strategy and oracle
 
 WIDTHS = [1, 2, 3, 4, 5, 6, 7, 8]
 FRACS = [1.0, 0.6, 0.3]
@@ -38,7 +39,7 @@ def strategy(tier):
     return st.fixed_dictionaries({
         't': docterm.term_strategy(classic=True, max_leaves=16),
         'w': st.one_of(st.integers(1, 12), st.integers(1, 40)),
-        'frac': st.one_of(st.sampled_from([1.0, 0.9, 0.5, 0.3, 0.1, 0.05]), st.floats(0.01, 1.0)),
+        'frac': st.one_of(st.sampled_from([1.0, 0.9, 0.5, 0.3, 0.1, 0.05]), st.integers(1, 100).map(lambda n: n / 100)),
         'strategy': st.sampled_from(['smart', 'fast']),
     })
 
